@@ -177,12 +177,12 @@ func foldModel(m monoid.Monoid[int], xs []int) int {
 // Model is the expected behaviour of a stage derived from the plan by plain
 // list functions.
 type Model struct {
-	Out   []int // primary output (finite stages)
-	Out2  []int // Partition: right side
-	Errs  []int // ids of expected errors, in order
-	Calls []int // expected user-function arguments, in order (sequential stages)
-	Inf   func(k int) int // k-th value of an infinite generator (after skipping failures)
-	InfMax int            // number of values a generator delivers before a fail-fast error ends it (−1: unbounded)
+	Out    []int           // primary output (finite stages)
+	Out2   []int           // Partition: right side
+	Errs   []int           // ids of expected errors, in order
+	Calls  []int           // expected user-function arguments, in order (sequential stages)
+	Inf    func(k int) int // k-th value of an infinite generator (after skipping failures)
+	InfMax int             // number of values a generator delivers before a fail-fast error ends it (−1: unbounded)
 	// number of input elements a sequential stage may consume at most (−1: all)
 	MaxConsumed int
 }
